@@ -145,7 +145,7 @@ def main_for(chk: Check, pid: str, models: bool = True):
         suspects = [(k, e) for k, e in pairs.items() if e[1] * 2 >= e[0] and e[1] > 0]
         extra_specs = []
         for (opt, enc), e in suspects:
-            for _ in range(4):
+            for _ in range(12):
                 extra_specs.append({"id": 10_000_000 + len(extra_specs), "opt": opt, "desc": gen.task_desc(rng, enc),
                                     "cfg": gen.config_dict(rng, opt, max_cycles=rng.choice([2, 3])), "mode": "serial", "workers": None, "tag": "int"})
         extra = [r for r in corpus.run_all(extra_specs)] if extra_specs else []
@@ -254,3 +254,35 @@ def canaries(chk: Check, pid: str, ok: list[dict]):
     bad, _, _ = corpus.judge("TracePop.tla", "TracePop.cfg", can, f"canary-{pid}", jobs=1)
     for i, cl in want.items():
         chk.canary(f"{cl}#{i}", (i, cl) in set(bad), "corrupted copy of an accepted real trace")
+
+
+def replay(chk: Check, rec: dict, pid: str | None = None):
+    """./check <ID> --replay <file>: re-execute the recorded run against the current tree and judge it again"""
+    pid = pid or rec.get("property", chk.pid)
+    spec = (rec.get("witness") or {}).get("run")
+    if not spec:
+        print("replay file carries no run descriptor; re-running the whole check")
+        return main_for(chk, pid)
+    spec = dict(spec, id=1)
+    out = corpus.run_all([spec], jobs=1)
+    recs = [r for r in out if "skipped" not in r and "harness_error" not in r]
+    if not recs:
+        chk.machinery.append(f"the recorded run could not be re-executed: {out}")
+        return
+    bad, st, _ = corpus.judge_runs(recs, f"replay-{pid}")
+    chk.states += st
+    chk.transitions += st
+    chk.traces = 1
+    chk.evaluations = 1
+    r = recs[0]
+    print(f"replayed {r['opt']} mode={r['mode']} crash={r['crash']!r} steps={r['steps']} verdicts={sorted(cl for _, cl in bad)}")
+    for _, clause in bad:
+        if clause.startswith(pid + "."):
+            if clause == "C06.crash" and r["encoding"] not in CONT_ENC:
+                chk.violation("C06.wholesale", {"optimizer": r["opt"], "space": r["encoding"]}, {"run": spec, "crash": r["crash"]})
+                continue
+            for key in explain(r, clause):
+                chk.violation(clause, key, {"run": spec, "crash": r.get("crash")})
+    chk.distinct.add((r["opt"], r["encoding"]))
+    chk.distinct.add(("replay", pid))
+    chk.sample({"opt": r["opt"], "crash": r["crash"], "steps": r["steps"], "verdicts": sorted(cl for _, cl in bad)})
